@@ -494,7 +494,7 @@ fn main() {
     let n = args.n(100_000, 2_000_000);
     if light {
         // Miri interprets ~10^3-10^4 times slower: a small slice, lighter per-value work.
-        let n = (n / 12).max(8);
+        let n = (n / 30).max(8);
         for i in 0..n {
             run_case(&mut m, args.seed, i, true);
         }
